@@ -183,9 +183,22 @@ def run(ctx):
         ctx.count("adversarial_lines")
     # ---- traffic log reassembly (any segmentation of a block)
     from geckolib.utils.snapshot import GeckoSnapshot
-    for k in range(12 if ctx.thorough else 5):
+    for k in range(24 if ctx.thorough else 10):
         blk = bytes(rng.choice([39, 34, 92, 10, 0, rng.randrange(256)]) for _ in range(rng.choice([1024, 200, 39, 78])))
-        cuts = sorted(set([0, len(blk)] + [rng.randrange(1, len(blk)) for _ in range(rng.randrange(0, 8))])) if k % 2 else list(range(0, len(blk), 39)) + [len(blk)]
+        if k % 2:
+            # segments of all kinds of sizes (1 .. 200 bytes): small first and larger later, larger first, random
+            sizes, left, style = [], len(blk), rng.choice(["random", "growing", "small_first", "big_first"])
+            while left > 0:
+                n_ = {"random": rng.randrange(1, 201), "growing": min(200, 5 + 17 * len(sizes)), "small_first": 8 if not sizes else rng.randrange(60, 200),
+                      "big_first": 180 if not sizes else rng.randrange(1, 60)}[style]
+                n_ = min(n_, left)
+                sizes.append(n_)
+                left -= n_
+            cuts = [0]
+            for n_ in sizes:
+                cuts.append(cuts[-1] + n_)
+        else:
+            cuts = list(range(0, len(blk), 39)) + [len(blk)]
         segs = [blk[a:b] for a, b in zip(cuts, cuts[1:]) if b - a <= 255]
         dgs = [b"STATV" + struct.pack(">BBB", i, (i + 1) % len(segs), len(s)) + s for i, s in enumerate(segs)]
         snap = GeckoSnapshot()
